@@ -9,16 +9,21 @@ From Coq Require Import Sorted.
 
 (* repr() then _parse_attribute_value gives the value back: every int, every float (under the
    assumed laws of float()/repr(float), stated as hypotheses and checked on every float text the real
-   writer produces), every string whose characters at or above U+10000 are all printable.  The reader
+   writer produces), every string of code points (below U+110000) whose characters at or above U+10000 are all printable.  The reader
    is the code as it is (accU = false). *)
 Theorem C17_attr_roundtrip :
   forall (F : Type) (float_parse : str -> option F) (float_repr : F -> str) (printable : N -> bool) (a : attr F),
     (forall f, float_text_ok (float_repr f) = true /\ float_parse (float_repr f) = Some f) ->
-    match a with AStr s => Forall (fun c => (65536 <= c)%N -> printable c = true) s | _ => True end ->
+    match a with
+    | AStr s => Forall (fun c => (c < 1114112)%N /\ ((65536 <= c)%N -> printable c = true)) s
+    | _ => True
+    end ->
     parse_attr F float_parse false (py_repr F printable float_repr a) = to_pres a.
 Proof.
   intros F fp fr pr [s | z | f] HF HS; cbn [py_repr to_pres].
-  - apply roundtrip_str_gen. eapply Forall_impl; [| exact HS]. intros c H H'. left. exact (H H').
+  - apply roundtrip_str_gen; (eapply Forall_impl; [| exact HS]); cbv beta.
+    + intros c [H _]. exact H.
+    + intros c [_ H] H'. left. exact (H H').
   - apply roundtrip_int.
   - apply roundtrip_float; apply HF.
 Qed.
@@ -44,7 +49,7 @@ Theorem C17_attr_roundtrip_repaired :
     Forall (fun c => (c < 1114112)%N) s ->
     parse_attr F float_parse true (repr_str printable s) = PStr s.
 Proof.
-  intros F fp pr s H. apply roundtrip_str_gen. eapply Forall_impl; [| exact H].
+  intros F fp pr s H. apply roundtrip_str_gen; [exact H |]. eapply Forall_impl; [| exact H].
   intros c Hc _. right. split; [reflexivity |]. apply N.lt_trans with (1 := Hc). reflexivity.
 Qed.
 Print Assumptions C17_attr_roundtrip_repaired.
